@@ -171,6 +171,10 @@ def gen_struct(rnd, present):
                 else:
                     A[i][j] = v
         c.update(A=A, lower=lower)
+    c["sc2"] = 0
+    if kind != "ident" and rnd.random() < 0.25:
+        # overall scale 2**e (exact): single precision from ~1e-30 to ~1e24, double precision from ~1e-150 to ~1e145
+        c["sc2"] = rnd.randint(-100, 80) if dt in ("float32", "complex64") else rnd.randint(-500, 480)
     c["k"] = rnd.randint(1, n)
     c["which"] = rnd.choice(["LM", "SM"])
     algs = [None, dict(cls="Auto"), dict(cls="Eig"), dict(cls="Eigh"), dict(cls="PowerIteration")]
@@ -182,11 +186,12 @@ def gen_struct(rnd, present):
 
 def struct_dense(c):
     n = c["n"]
+    sc = 2.0 ** c.get("sc2", 0)
     if c["kind"] == "ident":
         return np.eye(n, dtype=np.complex128)
     if c["kind"] == "diag":
-        return np.diag(np.array([complex(*v) for v in c["d"]]))
-    return np.array([[complex(*v) for v in r] for r in c["A"]], dtype=np.complex128)
+        return np.diag(np.array([complex(*v) for v in c["d"]])) * sc
+    return np.array([[complex(*v) for v in r] for r in c["A"]], dtype=np.complex128) * sc
 
 
 def struct_op(c):
@@ -263,13 +268,15 @@ def structured_matrix(rnd, g, cls, n):
     return np.diag(lam).astype(np.complex128) + 0j, lam     # diagonal complex symmetric fallback
 
 
-def gen_dense(rnd, present, nmax, force_pairs=False):
+def gen_dense(rnd, present, nmax, force_pairs=False, force_cls=None):
     """operators with a prescribed simple, well-separated spectrum; returns the case (matrix parts as arrays)"""
     g = L.nprng(rnd)
     cls = rnd.choice(["sa_def", "sa_indef", "sa_indef", "gen_real", "gen_real", "gen_cplx", "sa_cplx"] + STRUCTURED)
     n = rnd.randint(2, nmax)
     if force_pairs:
         cls, n = "gen_real", max(n, 3)
+    if force_cls:
+        cls = force_cls
     f32 = rnd.random() < 0.15
     if cls in STRUCTURED:
         M, lam = structured_matrix(rnd, g, cls, n)
@@ -522,6 +529,13 @@ def run(ctx):
         _eig(_o.Diagonal(np.array([1., 2.])), 1, "LM", _Lz())
     except Exception:
         present = present | {"eig_structural_ambiguous"}
+    # a flag that is recorded as repaired (fixed:) but probes present again is a regression: its region is generated all the same, so that
+    # the oracle exhibits failing inputs (the model still runs at the probed flag vector)
+    try:
+        fixed_flags = {f["flag"] for f in core.parse_known()[1] if f["property"] == "C10"}
+    except Exception:
+        fixed_flags = set()
+    avoid = {f for f in present if f not in fixed_flags}
     rnd = ctx.rng
     mism, samples = [], []
     terms, meta = [], []          # QI cases
@@ -547,12 +561,12 @@ def run(ctx):
     # ---------------- structural rules (exact tier)
     n_struct = ctx.budget(160, 1500)
     for _ in range(n_struct):
-        c = gen_struct(rnd, present)
+        c = gen_struct(rnd, avoid)
         D = struct_dense(c)
         n, k, which = c["n"], c["k"], c["which"]
         lam_true = np.diag(D).copy()
         # regions spoiled by recorded defects
-        if c["kind"] in ("diag", "tri") and "eig_diag_sorted_by_value" in present:
+        if c["kind"] in ("diag", "tri") and "eig_diag_sorted_by_value" in avoid:
             order = np.sort_complex(lam_true) if np.iscomplexobj(lam_true) else np.sort(lam_true)
             if not pinned_selection_ok(order, lam_true, k, which):
                 bump(skipped_region, "eig_diag_sorted_by_value")
@@ -560,11 +574,13 @@ def run(ctx):
         mags = np.sort(np.abs(lam_true))
         if c["kind"] != "ident" and k < n:
             a, b = (mags[n - k - 1], mags[n - k]) if which == "LM" else (mags[k - 1], mags[k])
-            if abs(a - b) < 1e-9:
+            if abs(a - b) <= 1e-9 * b:
                 near_tie += 1
                 continue
         evals += 1
         bump(hist, c["kind"] + ":" + ("none" if c["alg"] is None else c["alg"]["cls"]))
+        if c.get("sc2"):
+            bump(hist, "scaled_structural_rule")
         obs = dict(ok=False)
         try:
             A = struct_op(c)
@@ -585,6 +601,9 @@ def run(ctx):
         if bad:
             oracle_viol.append(len(meta))
         # Coq term (the model runs at the probed flag vector: repaired rules sort by magnitude)
+        from fractions import Fraction
+        fsc = Fraction(2) ** c.get("sc2", 0)
+
         def natl(ix):
             return "(Some [" + ";".join(f"{int(x)}%nat" for x in ix) + "])"
         if "eig_diag_sorted_by_value" in present or c["kind"] == "ident":
@@ -595,12 +614,12 @@ def run(ctx):
         if c["kind"] == "ident":
             rule = "RIdent"
         elif c["kind"] == "diag":
-            rule = f"(RDiag {bymag} [" + ";".join(L.qic_exact(v[0], v[1]) for v in c["d"]) + "])"
+            rule = f"(RDiag {bymag} [" + ";".join(L.qic_exact(v[0] * fsc, v[1] * fsc) for v in c["d"]) + "])"
         else:
             lowrule = "true" if (c["lower"] and "eig_triangular_lower_upper_swapped" not in present and np.any(np.tril(D, -1))) else "false"
-            rule = f"(RTri {bymag} {lowrule} [" + ";".join("[" + ";".join(L.qic_exact(v[0], v[1]) for v in r) + "]" for r in c["A"]) + "] " + \
+            rule = f"(RTri {bymag} {lowrule} [" + ";".join("[" + ";".join(L.qic_exact(v[0] * fsc, v[1] * fsc) for v in r) + "]" for r in c["A"]) + "] " + \
                    ("true" if not cplx_of(c["dt"]) or "eig_triangular_complex_drops_imag" in present else "false") + ")"
-        scale = max(1.0, float(np.abs(obs["V"]).max(initial=0)), float(np.abs(D).max(initial=0)))
+        scale = max(1.0, float(np.abs(obs["V"]).max(initial=0)), float(np.abs(D).max(initial=0)) if not c.get("sc2") else 1.0)
         tol2 = 0 if c["kind"] in ("ident", "diag") else (tol * 100 * scale) ** 2
         terms.append(f"mkecase {n} {rule} ({k}) {which} {L.qc_lit(tol2)} true {L.qvec(obs['w'])} {L.qmat(obs['V'])}")
         meta.append(dict(case=case_js, bad=bad, got=dict(w=np.asarray(obs["w"]).tolist(), V=np.asarray(obs["V"]).tolist())))
@@ -609,13 +628,17 @@ def run(ctx):
     n_dense = ctx.budget(260, 2500)
     nmax = ctx.budget(6, 9)
     n_arn = ctx.budget(40, 250)    # real non-symmetric operators with complex-conjugate pairs under Arnoldi
-    for it in range(n_dense + n_arn):
-        forced = it >= n_dense
-        c = gen_dense(rnd, present, nmax, force_pairs=forced)
+    n_ext = ctx.budget(40, 300)    # indefinite self-adjoint operators under the Eigh rule at the ends of the floating-point format
+    for it in range(n_dense + n_arn + n_ext):
+        forced = n_dense <= it < n_dense + n_arn
+        ext = it >= n_dense + n_arn
+        c = gen_dense(rnd, avoid, nmax, force_pairs=forced, force_cls=(rnd.choice(["sa_indef", "sa_cplx"]) if ext else None))
         n = c["n"]
-        alg = choose_alg(rnd, c, present)
+        alg = choose_alg(rnd, c, avoid)
+        if ext:
+            alg = rnd.choice([dict(cls="Eigh"), dict(cls="Eigh"), dict(cls="Auto"), None])
         if forced:
-            cap = rnd.choice(["at", "above", "default", "below"]) if "arnoldi_padding" not in present else "below"
+            cap = rnd.choice(["at", "above", "default", "below"]) if "arnoldi_padding" not in avoid else "below"
             mi = dict(below=max(2, n - 1), at=n, above=n + rnd.randint(1, 4), default=None)[cap]
             alg = dict(cls="Arnoldi", kwargs=({} if mi is None else dict(max_iters=mi)), cap=cap)
             c["wrap"] = "Dense"
@@ -624,10 +647,16 @@ def run(ctx):
         eff = effective_alg(c, alg, k, which)
         if eff == "PowerIteration":
             continue   # covered by the power-iteration stream below
-        if eff in ("Eigh", "Eig") and c["cls"] != "orth" and rnd.random() < 0.3:
+        if eff in ("Eigh", "Eig") and c["cls"] != "orth" and (ext or rnd.random() < 0.4):
             # overall scale of the operator (the dense rules must be scale-covariant; the Krylov routines' tolerances are C14 / C15's)
-            sc_ = 10.0 ** rnd.uniform(-4, 4) if c["dt"] in ("float32", "complex64") else 10.0 ** rnd.uniform(-10, 10)
-            c["M"] = (c["M"] * sc_).astype(c["M"].dtype)
+            if rnd.random() < (0.75 if ext else 0.5):
+                c["dt"] = "complex64" if cplx_of(c["dt"]) else "float32"
+            zone = rnd.choice(["low", "high"] if ext else ["low", "mid", "high"])     # the ends are where squares, products and sums of squares leave the format
+            if c["dt"] in ("float32", "complex64"):
+                sc_ = 10.0 ** dict(low=rnd.uniform(-30, -21), mid=rnd.uniform(-21, 18), high=rnd.uniform(18, 25))[zone]
+            else:
+                sc_ = 10.0 ** dict(low=rnd.uniform(-160, -154), mid=rnd.uniform(-12, 12), high=rnd.uniform(145, 153))[zone]
+            c["M"] = (c["M"].astype(np.complex128 if cplx_of(c["dt"]) else np.float64) * sc_).astype(getattr(np, c["dt"]))
             c["lam"] = np.asarray(c["lam"]) * sc_
             c["wrap"] = "Dense"
             c["scale"] = sc_
@@ -652,22 +681,22 @@ def run(ctx):
         D = c["M"].astype(np.complex128)
         # regions spoiled by recorded defects (decided from the input alone)
         check_sel = True
-        if eff in ("Eigh", "Lanczos") and "eigh_algebraic_not_magnitude" in present and not (eff == "Lanczos" and cap == "below"):
+        if eff in ("Eigh", "Lanczos") and "eigh_algebraic_not_magnitude" in avoid and not (eff == "Lanczos" and cap == "below"):
             if not pinned_selection_ok(np.sort(lam_true.real), lam_true, k, which):
                 bump(skipped_region, "eigh_algebraic_not_magnitude")
                 continue
-        if eff == "LOBPCG" and "lobpcg_top_block_only" in present:
+        if eff == "LOBPCG" and "lobpcg_top_block_only" in avoid:
             top = np.sort(lam_true.real)[1:]
             if which != "LM" or k > n - 1 or cplx_of(c["dt"]) or not pinned_selection_ok(top, lam_true, k, which):
                 bump(skipped_region, "lobpcg_top_block_only")
                 continue
-        if eff == "Eig" and "eig_dense_unsorted" in present:
+        if eff == "Eig" and "eig_dense_unsorted" in avoid:
             w0 = np.linalg.eig(Dimpl)[0]
             if not pinned_selection_ok(w0, lam_true, k, which):
                 bump(skipped_region, "eig_dense_unsorted")
                 continue
         full = not (eff in ("Lanczos", "Arnoldi") and cap == "below")
-        if eff == "Arnoldi" and full and "eig_dense_unsorted" in present:
+        if eff == "Arnoldi" and full and "eig_dense_unsorted" in avoid:
             check_sel = False   # order of eig(H): not predictable from the input
         evals += 1
         bump(hist, f"{c['cls']}:{eff}" + (f":{cap}" if cap else ""))
@@ -696,7 +725,10 @@ def run(ctx):
             if eff == "Eigh":
                 hyp_ok = hyp_ok and bool(np.all(np.diff(ow.real) >= 0))
             if not hyp_ok:
-                mism.append(dict(oracle_fail=False, case=case_js, failed_clauses=[f"the eigen-oracle of rule {eff} violates its specification (residual {r_or:.3g})"]))
+                # the oracle's answer is no eigendecomposition: the theorems do not apply, but the property is still decided on cola's output
+                bad, _ = check_property(D, w, V, k, which, False, lam_true, tol, check_sel=check_sel)
+                mism.append(dict(oracle_fail=bool(bad), case=case_js, got=dict(w=np.asarray(w).tolist()),
+                                 failed_clauses=bad + [f"the eigen-oracle of rule {eff} violates its specification (residual {r_or:.3g})"]))
                 continue
             bad, near = check_property(D, w, V, k, which, c["sa"] and eff in ("Eigh", "Lanczos"), lam_true, tol, check_sel=check_sel)
             if near:
@@ -757,9 +789,9 @@ def run(ctx):
     import cola
     from cola import ops
     for _ in range(n_pow):
-        c = power_case(rnd, ctx.budget(6, 9), present)
+        c = power_case(rnd, ctx.budget(6, 9), avoid)
         n = c["n"]
-        if "power_iteration_negative_eig" in present:
+        if "power_iteration_negative_eig" in avoid:
             xnp0 = ops.Dense(c["M"]).xnp
             if not rayleigh_all_positive(c["M"], np.asarray(xnp0.randn(n, dtype=np.float64, device=None, key=xnp0.PRNGKey(42)))):
                 bump(skipped_region, "power_iteration_negative_eig")
